@@ -27,6 +27,7 @@ CONSTANTS
   EnDisconnect = TRUE
   EnStale = TRUE
 SPECIFICATION TraceSpec
+INVARIANTS NoPanic SlabsAligned ReadyqSound NoLostRequest DeliveredExactly NoSpurious AcksInOrder WindowBound UniqueInflightIds InflightIdsValid QuiescentComplete
 CONSTRAINT Progress
 POSTCONDITION TraceAccepted
 CHECK_DEADLOCK FALSE
